@@ -73,6 +73,34 @@ def check_one(acc: core.Acc, s: str, multiline: bool, embed: bool) -> None:
         acc.fail('not_inverse', case, f's={s!r} multiline={multiline} escaped={esc!r} tokenizes to {got!r}',
                  multiline=multiline)
         return
+    # the other ways of consuming a tokenizer hand back the same string: tok() calls, skipping_newlines(), expect(), peek + call
+    if len(s) <= 3:
+        text = '"' + esc + '"\n'
+        routes = {}
+        try:
+            t = Tokenizer(text, None, allow_escapes=True)
+            routes['call'] = t()
+            t = Tokenizer(text, None, allow_escapes=True)
+            routes['skipping_newlines'] = next(iter(t.skipping_newlines()))
+            t = Tokenizer('\n' + text, None, allow_escapes=True)
+            routes['skipping_newlines_after_blank_line'] = next(iter(t.skipping_newlines()))
+            t = Tokenizer(text, None, allow_escapes=True)
+            routes['expect'] = (Token.STRING, t.expect(Token.STRING))
+            t = Tokenizer(text, None, allow_escapes=True)
+            pk = t.peek()
+            routes['peek_then_call'] = t() if pk == (Token.STRING, s) else pk
+            t = Tokenizer(text, None, allow_escapes=True)
+            first = t()
+            t.push_back(*first)
+            routes['push_back_then_call'] = t()
+        except Exception as exc:  # noqa: BLE001
+            acc.fail('consume_route_raises', case, f's={s!r}: {sorted(routes)[-1:] or "first route"} then {type(exc).__name__}: {exc}', multiline=multiline)
+            return
+        acc.evaluations += len(routes)
+        for rn, got_r in routes.items():
+            if got_r != (Token.STRING, s):
+                acc.fail('consume_route_differs', dict(case, route=rn), f's={s!r} escaped={esc!r}: read through {rn} gives {got_r!r}', route=rn)
+                return
     if embed:
         for rname, opts in READERS.items():
             for pos, line, want in (
@@ -215,6 +243,63 @@ def writer_sites():
             return text, dflt, want
         return fn
 
+    # ---- the REAL readers of the same formats (the property is about what they hand back, not only about token streams)
+    def rd_kv(text):
+        kv = Keyvalues.parse(text)
+        out = []
+        for ch in kv:
+            out.append(ch.real_name)
+            if ch.has_children():
+                out.extend(x for c2 in ch for x in (c2.real_name, c2.value))
+            else:
+                out.append(ch.value)
+        return out
+
+    def rd_vmf_ent(text):
+        v = VMF.parse(Keyvalues.parse(text))
+        out = []
+        for e in v.entities:
+            for k in e:
+                out.extend([k, e[k]])
+            out.extend(['comments', e.comments])
+        return out
+
+    _bsp_base = {}
+
+    def rd_bsp(text):
+        import os as _os
+        from checks import bspgen as _G
+        if 'path' not in _bsp_base:
+            d = _os.path.join('/dev/shm', f'verif-C02-{_os.getpid()}')
+            _os.makedirs(d, exist_ok=True)
+            _bsp_base['path'] = _os.path.join(d, 'base.bsp')
+            with open(_bsp_base['path'], 'wb') as f:
+                f.write(_G.empty_file('v20'))
+        from srctools.bsp import BSP_LUMPS
+        bsp = BSP(_bsp_base['path'])
+        bsp.lumps[BSP_LUMPS.ENTITIES].data = text.encode('ascii', 'surrogateescape') + b'\0'
+        out = []
+        for e in bsp.ents.entities:
+            for k in e:
+                out.extend([k, e[k]])
+        return out
+
+    def rd_dmx(text):
+        root, _, _ = dmx.Element.parse(_io.BytesIO(b'<!-- dmx encoding keyvalues2 1 format dmx 1 -->\n' + text.encode('utf8')), unicode=True)
+        out = [root.type, 'name', root.name]
+        for attr in root.values():
+            if attr.name == 'name':
+                continue
+            out.append(attr.name)
+            if attr.is_array:
+                out.extend(list(attr.iter_str()))
+            else:
+                out.append(attr.val_str)
+        return out
+
+    readers = {'kv': rd_kv, 'vmf.key': rd_vmf_ent, 'vmf.value': rd_vmf_ent, 'vmf.comments': rd_vmf_ent, 'bsp': rd_bsp, 'dmx': rd_dmx}
+    _REAL_READERS.update(readers)
+
     sites = {
         'kv.leaf_name': (True, kv_leaf_name), 'kv.leaf_value': (False, kv_leaf_value), 'kv.block_name': (True, kv_block_name),
         'vmf.key': (True, vmf_key), 'vmf.value': (False, vmf_value), 'vmf.comments': (False, vmf_comments), 'vmf.fixup': (False, vmf_fixup),
@@ -231,6 +316,12 @@ def writer_sites():
 
 
 _SITES: dict = {}
+_REAL_READERS: dict = {}
+SITE_EXTRA = ['\x00', '\ufeff', '\u00df', '\x1b']      # only for the writer/reader call-site strings
+
+
+def real_reader_for(name: str):
+    return _REAL_READERS.get(name) or _REAL_READERS.get(name.split('.')[0])
 
 
 def check_sites(acc: core.Acc, s: str) -> None:
@@ -241,8 +332,8 @@ def check_sites(acc: core.Acc, s: str) -> None:
             continue          # names are single-line by the format (readers reject line breaks in keys)
         if name.startswith('output.') and ((',' in s and 'comma' in name) or '\x1b' in s or (';' in s and 'inst' in name)):
             continue          # an output field cannot contain its own separator
-        if name.startswith('dmx.') and not s.isascii():
-            pass
+        if name.startswith('bsp.') and (not s.isascii() or '\x1b' in s or s == '\x00'):
+            continue          # the entity lump is ASCII (+surrogateescape bytes); ESC makes a value an output; a lone NUL token is the lump terminator
         acc.evaluations += 1
         case = {'s': s, 'site': name}
         try:
@@ -255,6 +346,21 @@ def check_sites(acc: core.Acc, s: str) -> None:
         n = len(want)
         if not any(got[i:i + n] == want for i in range(len(got) - n + 1)):
             acc.fail('site_not_inverse', case, f'{name}: {s!r} written as {text[:300]!r}; string tokens read back {got[:12]!r}, expected to contain {want!r}',
+                     site=name)
+            continue
+        rd = real_reader_for(name)
+        if rd is None:
+            continue
+        acc.evaluations += 1
+        want_r = [w for w in want if w not in ('string', 'string_array')]
+        try:
+            got_r = rd(text)
+        except Exception as exc:  # noqa: BLE001
+            acc.fail('site_reader_raises', case, f'{name}: {s!r} written as {text[:300]!r}; the format\'s own reader raised {type(exc).__name__}: {exc}', site=name)
+            continue
+        n = len(want_r)
+        if not any(got_r[i:i + n] == want_r for i in range(len(got_r) - n + 1)):
+            acc.fail('site_reader_not_inverse', case, f'{name}: {s!r} written as {text[:300]!r}; the format\'s own reader returned {got_r[:14]!r}, expected to contain {want_r!r}',
                      site=name)
 
 
@@ -272,7 +378,7 @@ def shard(spec) -> core.Acc:
     elif kind == 'sites':
         _, prefix, length = spec
         rest = length - len(prefix)
-        for tail in itertools.product(SIGMA, repeat=rest):
+        for tail in itertools.product(SIGMA + SITE_EXTRA, repeat=rest):
             check_sites(acc, prefix + ''.join(tail))
         acc.sample({'s': prefix + SIGMA[1] * rest, 'sites': 'all writer call sites'}, 1)
     elif kind == 'uni':
@@ -303,7 +409,7 @@ def run(ctx: core.Ctx) -> None:
         if n <= 1:
             shards.append(('sites', '', n))
         else:
-            for c in (itertools.product(SIGMA, repeat=1) if n == 2 else itertools.product(SIGMA, repeat=2)):
+            for c in (itertools.product(SIGMA + SITE_EXTRA, repeat=1) if n == 2 else itertools.product(SIGMA + SITE_EXTRA, repeat=2)):
                 shards.append(('sites', ''.join(c), n))
     step = 0x1000
     for lo in range(0, 0x110000, step):
